@@ -110,7 +110,9 @@ class EngineG(EngineBase):
             t1, t2 = ch.choice(gen_c.whitespace_twins(), "twin")
             for e in (t1, t2):
                 ast = ("expr", ("assign", "=", ("atom", ("id", "x")), e))
-                texts.append(self._gen_text(ch, ast, False, "gen"))
+                tw = self._gen_text(ch, ast, False, "gen")
+                tw["hazard"] = True          # ambiguity-sensitive: also part of every parse_single history
+                texts.append(tw)
         n_gen = ch.randint(3, 9, "n_gen")
         for _ in range(n_gen):
             g = gen_c.CGen(ch)
@@ -133,7 +135,7 @@ class EngineG(EngineBase):
             hs = ch.choice([0, 1, 2, 12345, None], "hs")
             if hs is None:
                 hs = ch.draw(2**32, "hs32")
-            route = ch.weighted([("compiler", 5), ("direct", 3), ("parse_single", 1)], "route")
+            route = ch.weighted([("compiler", 5), ("direct", 3), ("parse_single", 2)], "route")
             order = ch.shuffle(list(range(len(texts))), "order")
             if route == "parse_single":
                 hazards = [i for i, t in enumerate(texts) if t.get("hazard")]
